@@ -689,6 +689,25 @@ static void op_repair(World &W, const Json &op) {
         } else {
             judge_consume_errors(W, "reconstruct", rc, D, num, 0, o.flen);
         }
+    } else if (coded_backend(s.cfg.be) && s.cfg.be == o.cfg.be && s.cfg.k == o.cfg.k && s.cfg.m == o.cfg.m && s.cfg.hd == o.cfg.hd &&
+               D.all_pristine && !((D.pristine_mask >> dest) & 1) && within_tolerance(s.cfg, D.pristine_mask) && rc == 0 && o.flen >= ref::HDR) {
+        // the stripe was written under another checksum type (checksums enabled or disabled later): the rebuilt fragment is
+        // written by *this* instance, so it carries this instance's checksum type and, for CRC32, a right checksum (C10)
+        W.probe("repair.other-checksum-type");
+        const std::vector<u8> &want = o.orig[dest];
+        bool lg = env_legacy(W);
+        u32 sz = ref::ld32(outb + ref::OFF_SIZE);
+        if (bytes_differ(outb + ref::HDR, want.data() + ref::HDR, o.flen - ref::HDR) || sz != ref::ld32(want.data() + ref::OFF_SIZE))
+            W.viol("C10 C03", "reconstruct/other-ct/payload-differs", "rebuilt payload differs from the one encode produced");
+        else {
+            if (outb[ref::OFF_CT] != (u8) s.cfg.ct) W.viol("C10", "reconstruct/other-ct/checksum-type-not-the-instance's", "header says type " + std::to_string(outb[ref::OFF_CT]) + ", the rebuilding instance was created with " + std::to_string(s.cfg.ct));
+            else if (s.cfg.ct == ref::CT_CRC32 && (u64) sz + ref::HDR <= o.flen) {
+                u32 wc = lg ? ref::crc_legacy(outb + ref::HDR, sz) : ref::crc_std(outb + ref::HDR, sz);
+                if (ref::ld32(outb + ref::OFF_CHKSUM) != wc) W.viol("C10", "reconstruct/other-ct/payload-crc-wrong", "rebuilt fragment's stored payload checksum differs from the CRC-32 model");
+            }
+            u32 wm = lg ? ref::crc_legacy(outb, ref::META) : ref::crc_std(outb, ref::META);
+            if (ref::ld32(outb + ref::OFF_METACRC) != wm) W.viol("C10", "reconstruct/other-ct/meta-crc-wrong", "rebuilt fragment's metadata checksum differs from the CRC-32 model");
+        }
     }
     if (leaked(W, live0))
         W.viol(rc == 0 ? "C16" : "C16 C17 C13", rc == 0 ? "reconstruct-leak" : "reconstruct-error-leak", "reconstruct (rc=" + std::to_string(rc) + ") left " + std::to_string((long) own::live() - (long) live0) + " block(s)");
